@@ -83,6 +83,26 @@ M = [
   '    IN IF hits = {} THEN 0 ELSE MinOf(hits)',
   '    IN IF hits = {} THEN 0 ELSE MaxOf(hits)',
   "MC_Fn.tla", "MC_Fn_quick.cfg", r"CaseOK"),
+ ("write_done_keeps_out_interest", "HttpServer.tla",
+  '                           !.srv[f].intr = IF st2 = "AwaitingIncoming" THEN "IN" ELSE @,',
+  '                           !.srv[f].intr = @,',
+  "MC_Server.tla", "MC_Server_quick.cfg", r"InterestsOK|PollOK|Action property"),
+ ("read_with_output_stays_in", "HttpServer.tla",
+  '                    !.srv[f].intr = IF out THEN "OUT" ELSE @,',
+  '                    !.srv[f].intr = @,',
+  "MC_Server.tla", "MC_Server_progs.cfg", r"InterestsOK|NoStall|Action property"),
+ ("clear_keeps_partial_response", "MC_Write.tla",
+  "Clear == /\\ c' = ClearWrite(c)",
+  "Clear == /\\ c' = [c EXCEPT !.respQ = <<>>]",
+  "MC_Write.tla", "MC_Write.cfg", r"PrefixOK|PendingOK|ClearOK|Action property"),
+ ("intr_flush_keeps_out_interest", "ServerIntr.tla",
+  """            /\\ intr' = [f \\in FD |-> IF f \\in R /\\ st'[f] = "In" THEN "IN" ELSE intr[f]]""",
+  """            /\\ intr' = intr""",
+  "PROOF", "ServerIntr_proofs.tla", r"obligations failed"),
+ ("intr_respond_does_not_arm_out", "ServerIntr.tla",
+  """                      /\\ intr' = [intr EXCEPT ![f] = "OUT"]""",
+  """                      /\\ intr' = intr""",
+  "PROOF", "ServerIntr_proofs.tla", r"obligations failed"),
  ("abs_sweep_ignores_inflight", "ServerAbs.tla",
   'Sweep(R) == /\\ R \\subseteq {f \\in FD : st[f] = "closed" /\\ infl[f] = 0}',
   'Sweep(R) == /\\ R \\subseteq {f \\in FD : st[f] = "closed"}',
